@@ -175,13 +175,13 @@ PROPS = {
         assumptions=["template generation avoids zero map values and NaN/Inf/-0 (not representable / documented no-ops)"],
     ),
     "C01": dict(
-        lean_modules=["Enc.Props.C01", "Enc.Props.C01Fields", "Enc.Props.C01Codec", "Enc.Props.C01MapKeys", "Enc.Props.C01Omit", "Enc.Props.C01Inlined", "Enc.Props.C01Float", "Enc.Props.C14Raw"],
+        lean_modules=["Enc.Props.C01", "Enc.Props.C01Fields", "Enc.Props.C01Codec", "Enc.Props.C01MapKeys", "Enc.Props.C01Omit", "Enc.Props.C01Inlined", "Enc.Props.C01Float", "Enc.Props.C01Typed", "Enc.Props.C14Raw"],
         variants=V_DEFAULT, areas=["json.encoder", "json.escapeIndex", "json.formatInteger", "json.appendInt", "json.appendUint", "json.constructCodec",
                                    "json.appendStructFields", "json.emptyFuncOf", "json.inlined", "json.constructMapCodec", "json.Marshal", "json.Append",
                                    "json.Encoder", "json.Escape", "json.AppendEscape", "json.appendCompactEscapeHTML", "json.constructStructType",
                                    "json.below", "json.contains", "json.expand", "json.escapeByteRepr", "json.isValidTag", "json.intStringsAreSorted"],
         allowed_native=["Enc.Lemmas.Json", "Lemmas.Json"],
-        main_theorem="Enc.Props.C01.encodeString_eq, formatInteger_eq, appendInt_eq (scalar encoders = encoding/json's appendString / strconv decimal, for every input); Enc.Props.C01Fields.segFields_eq_stdFields(_of_shadowingOnly) (struct-field resolution of appendStructFields = encoding/json's dominance rule on every struct-type tree without visible name collisions)",
+        main_theorem="Enc.Props.C01.encodeString_eq, formatInteger_eq (scalar encoders = encoding/json transcription); C01Fields.segFields_eq_stdFields; C01Codec.choose_terminates, marshaler_order_eq_std, choose_eq_std_partial, cache_history_independent; C01MapKeys.intStringsAreSorted_eq, uintStringsAreSorted_eq, encodeIntKeyMap_eq_std; C01Omit.isEmpty_eq_std; C01Inlined.inlined_eq; C01Float.encodeFloat_eq_std, format_choice; C14Raw.rawEmit_eq_std, marshaler_eq_std",
         rule="(a) scalar layer through the Lean driver: strings with an escapable byte at every offset 0..24 relative to the 8-byte "
              "scan x {EscapeHTML on/off}, U+2028/9 and invalid UTF-8 forms, random strings; integers at every power of 2 and 10 "
              "boundary; Escape/AppendEscape; Duration. (b) type-directed differential vs encoding/json: random types built with "
@@ -195,12 +195,12 @@ PROPS = {
         assumptions=["the struct-field resolution / codec construction layer is decided by differential testing, not by theorem"],
     ),
     "C02": dict(
-        lean_modules=["Enc.Props.C02", "Enc.Props.C02Any", "Enc.Props.C02Typed", "Enc.Props.C01Fields"],
+        lean_modules=["Enc.Props.C02", "Enc.Props.C02Any", "Enc.Props.C02Typed", "Enc.Props.C01CodecDec", "Enc.Props.C01Typed", "Enc.Props.C01Fields"],
         variants=V_DEFAULT, areas=["json.decoder", "json.Parse", "json.Unmarshal", "json.Decoder", "json.constructCodec", "json.constructMapCodec",
                                    "json.constructStructType", "json.appendStructFields", "json.hasNullPrefix", "json.appendToLower", "json.foldRune",
                                    "json.skipSpaces", "json.appendRune", "json.appendCoerceInvalidUTF8", "json.internalParseFlags"],
         allowed_native=["Enc.Lemmas.Json", "Lemmas.Json"],
-        main_theorem="Enc.Props.C02.unmarshalInt_eq, unmarshalString_eq (scalar decoders as coded = transcription of encoding/json literalStore / unquoteBytes, for every document); Enc.Props.C02Any.decodeAny_eq_spec, decodeAny_ok_iff_valid, number_flags_change_type_only, duplicate_keys_last_wins, decodeAny_render (value-level decoder into `any` = grammar-directed specification, every byte string, every flag subset); Enc.Props.C01Fields.lookupKey_eq (the field an object key is stored into = the field encoding/json chooses, exact-name layer)",
+        main_theorem="Enc.Props.C02.unmarshalInt_eq, unmarshalString_eq (scalar decoders as coded = transcription of encoding/json literalStore / unquoteBytes, for every document); Enc.Props.C02Any.decodeAny_eq_spec, decodeAny_ok_iff_valid, number_flags_change_type_only, duplicate_keys_last_wins, decodeAny_render (value-level decoder into `any` = grammar-directed specification, every byte string, every flag subset); Enc.Props.C02Typed.decodeTyped_eq_spec, decodeTyped_total, decodeTyped_ok_implies_valid, key_lookup_agrees, merge_map, decodeTyped_seq_eq_spec (typed targets with prior content = grammar-directed specification); Enc.Props.C01Fields.lookupKey_eq (the field an object key is stored into = the field encoding/json chooses, exact-name layer)",
         rule="(a) scalar layer through the Lean driver: integer literals at every width boundary +-1, 19/20-digit values around the "
              "wrap-around points of value*10+x, leading zeros, floats into integers, random 64-bit magnitudes, into all ten integer "
              "types (model = implementation = transcription of encoding/json's literalStore); string literals with every escape, "
@@ -213,7 +213,7 @@ PROPS = {
              "reflect.DeepEqual)",
         trusted_base=["encoding/json of the installed toolchain is the oracle (in-process)",
                       "strconv.ParseFloat, base64, time parsing are shared parameters (called by both)"],
-        assumptions=["typed targets other than `any` (codec construction) are decided by differential testing, not by theorem",
+        assumptions=["typed decoder: universe JT (no tags/embedding/Unmarshaler methods: those layers are C01Fields / differential); hypotheses noPP (known finding) and plain prior",
                      "error values are compared as nil / non-nil only (the property says so); json.decanycls compares the error class with the model only"],
     ),
     "C15": dict(
@@ -234,7 +234,7 @@ PROPS = {
                      "the immutable-value model; only the guard-byte differential on the real code covers it"],
     ),
     "C14": dict(
-        lean_modules=["Enc.Props.C14", "Enc.Props.C14Raw", "Enc.Props.C02Any"],
+        lean_modules=["Enc.Props.C14", "Enc.Props.C14Raw", "Enc.Props.C02Any", "Enc.Props.C01Typed"],
         variants=V_DEFAULT, areas=["json.encoder", "json.decoder", "json.Append", "json.Parse", "json.Encoder", "json.Decoder", "json.AppendFlags", "json.ParseFlags"],
         allowed_native=["Enc.Lemmas.Json", "Lemmas.Json"],
         main_theorem="Enc.Props.C14.dynChoice_is_documented_precedence (decision table of decodeDynamicNumber = documented precedence), dynChoice_value; string_round_trip, escapeHTML_changes_representation_only, int_round_trip_all_widths, render_valid, render_tokens_concat, sortMapKeys_members_perm; Enc.Props.C02Any.number_flags_change_type_only",
@@ -295,7 +295,7 @@ PROPS = {
                      "they do in encoding/json: recorded as known finding json-marshal-deep-acyclic"],
     ),
     "C09": dict(
-        lean_modules=["Enc.Props.C09", "Enc.Props.C01Codec"],
+        lean_modules=["Enc.Props.C09", "Enc.Props.C01Codec", "Enc.Props.C01CodecDec"],
         variants=[{"name": "default", "tags": "verif"}, {"name": "race", "tags": "verif", "race": True, "aux": True}],
         areas=["json.cache", "json.cacheLoad", "json.cacheStore", "json.constructCachedCodec", "json.Append", "json.Parse", "json.encoderBufferPool",
                "json.mapslicePool", "json.stackPool", "json.Tokenizer", "json.acquireStack", "json.releaseStack", "json.constructStructType", "json.constructRecursiveCodec", "json.Encoder", "json.Marshal", "proto.cachedCodecOf", "proto.loadCachedCodec", "proto.storeCachedCodec",
